@@ -2,7 +2,7 @@
    closed by [exact]; pinned again in coq/audit/C0x.v.  What each one says in words
    is in the comment above it; what is NOT proved is said there too. *)
 From VP Require Import Base.Tactics Zdd.Model Zdd.ProofsBase Zdd.ProofsPwo Zdd.ProofsArena
-  Sase.Model Sase.ProofsBounds Sase.ProofsSound Sase.ProofsSoundEngine Sase.ProofsCompile Sase.ProofsKleene.
+  Sase.Model Sase.ProofsBounds Sase.ProofsSound Sase.ProofsSoundEngine Sase.ProofsCompile Sase.ProofsPattern Sase.ProofsKleene.
 
 (* ------------------------------------------------------------------ C01 *)
 (* For every pattern (any number of steps, any `all` flags, any filters), every list of
@@ -24,6 +24,31 @@ Proof.
   intros steps negs part max_runs st lim evs out H.
   exact (stream_sound (mkCfg (compile steps) negs part max_runs st lim) (compile_flags steps) evs [] engine0 out
            (all_good0 _) H).
+Qed.
+
+(* ... and at the level of the pattern: every emitted match is an occurrence of the step list --
+   over a contiguous segment of the stream its events are consumed in step order (an `all`
+   step one or more times), each event has its step's event type and satisfies its step's
+   filter under the captures made before it (a filter of an `all` step that refers to the
+   step's own alias is the business of enumeration, C03), no event of the segment satisfies a
+   .not clause under the captures at that time, and the occurrence ends in the last step.
+   NOT covered by this statement: the partition clause of C01 (all events of a match share the
+   partition value) -- tied by the differential check and the oracle only. *)
+Definition occurrence (steps : list step) (negs : list (N * option pred)) (P : list event) (m : mres) : Prop :=
+  exists es st j, infix es P /\ pocc steps negs es st j /\ S j = length steps /\
+                  m_stack m = map (fun x => eid (fst x)) st.
+
+Theorem C01_matches_are_occurrences :
+  forall steps negs part max_runs st lim evs out,
+    run_collect (mkCfg (compile steps) negs part max_runs st lim) engine0 evs = Some out ->
+    Forall (Forall (occurrence steps negs evs)) out.
+Proof.
+  intros steps negs part max_runs st lim evs out H.
+  pose proof (C01_matches_have_derivations_partial steps negs part max_runs st lim evs out H) as G.
+  eapply Forall_impl; [|exact G]. intros ms Gm. eapply Forall_impl; [|exact Gm].
+  intros m (es & stk & q & I & D & A & E).
+  destruct (deriv_pocc steps negs es stk q D) as (j & s & Hj & -> & Pc).
+  exists es, stk, j. repeat split; auto. eapply accepting_last; eauto.
 Qed.
 
 (* one step of the engine keeps the invariant "every live run has a derivation" *)
